@@ -543,7 +543,15 @@ func (w *wire) sendEnvelopes(envs [][]byte, plan segPlan) (string, error) {
 		out = append(out, b...)
 		if self {
 			desc = append(desc, fmt.Sprintf("self(%d env,%dB,%s)", n, len(payload), d))
-			w.k.count(fmt.Sprintf("peer_envelopes_per_segment/%d", n), 1)
+			switch {
+			case n > 128:
+				w.k.count("peer_envelopes_per_segment/129-1024", 1)
+				w.k.max("max_peer_envelopes_in_one_segment", int64(n))
+			case n > 32:
+				w.k.count("peer_envelopes_per_segment/033-128", 1)
+			default:
+				w.k.count(fmt.Sprintf("peer_envelopes_per_segment/%d", n), 1)
+			}
 		} else {
 			desc = append(desc, fmt.Sprintf("part(%dB,%s)", len(payload), d))
 			w.k.count("peer_segments_not_self_contained", 1)
